@@ -32,7 +32,7 @@ Obs(ln, T) ==
 LifeStep(ln) ==
   LET a == ln.a IN
   CASE ln.op = "Reset" ->
-         L' = InitLife(a.interval)
+         L' = InitLife(a.interval, IF "slow" \in DOMAIN a THEN a.slow ELSE 0)
     [] ln.op = "Start" ->
          LET e == StartF(L, a.connectfail, a.failat) IN
          /\ Chk("result of Start", ln.r = e.r)
@@ -74,7 +74,7 @@ CliOK(ln) ==
     /\ Chk("agent binary crashed", ~ln.panic)
     /\ UNCHANGED L
 
-TInit == l = 1 /\ L = InitLife(60)
+TInit == l = 1 /\ L = InitLife(60, 0)
 TNext == /\ l <= Len(Trace)
          /\ LET ln == Trace[l] IN
             IF "ev" \in DOMAIN ln /\ ln.ev = "round" THEN RoundOK(ln)
